@@ -41,4 +41,16 @@ CHECKS = {
                 "function is by being a function in the model and is observed, not proved, at process level. Trusted: Lean kernel + 3 axioms, translator, differential harness.",
         "technique": "Lean 4 proof (permutation invariance of a fold) + translator table (decide) + hash-seed/history differential",
     },
+    "C15": {
+        "text": "Lean theorems: slice algebra (the three slices concatenate to the original for every string and every ordered index pair), "
+                "header_args_footer_to_str keeps the header as a byte-exact prefix and the footer as a byte-exact suffix for all inputs, "
+                "ensure_doc_args_whence_original returns the original or a string starting with the original header and ending with its footer. "
+                "The models are faithful character-level ports (index walkers, split, re-assembly, num_of_nls, textwrap.indent) tied to the code "
+                "by exact comparison on exhaustive short token strings, repo docstrings, mutants and generated header+section+footer documents; "
+                "the conversion clauses (header lines kept in order, no prose absorbed into a type/default) are evaluated on the real parser/emitter.",
+        "note": "Partial: the ordering start<=last of the two index walkers is observed (exhaustively on short strings), not proved; the parse-side "
+                "absorption clause is checked on the real code only. Reading: the split identity is stated on the index pair because the function "
+                "returns the re-indented *current* section. Two known findings (ReST footer absorbed into the last :type/:rtype).",
+        "technique": "Lean 4 proof (list prefix/suffix algebra over faithful string models) + exact differential correspondence",
+    },
 }
